@@ -181,8 +181,21 @@ def eval_site(ck, alpha, site, domain_override=None):
             domain, dominfo = domain_override
             env[site["raw"]] = ("R",)
             stmts = frag[1:]
-    p0 = Path(domain, env)
-    paths = ev.run_block(stmts, [p0])
+            val = getattr(raw_stmt, "value", None)
+            if (isinstance(val, ast.BoolOp) and isinstance(val.op, ast.Or) and len(val.values) == 2 and isinstance(val.values[1], ast.Constant)
+                    and isinstance(val.values[1].value, (str, bytes))):
+                # raw = <lookup> or CONST : an empty (falsy) raw value is replaced by the constant before the fragment sees it
+                k = val.values[1].value
+                k = k if isinstance(k, bytes) else k.encode("latin-1")
+                empty_tok = rl.dfa(alpha, rl.rlit(b""))
+                env2 = dict(env)
+                env2[site["raw"]] = ("const", val.values[1].value)
+                extra_paths = [Path(domain & empty_tok, env2)]
+                domain_nonempty = domain - empty_tok
+            elif val is not None and not (isinstance(val, ast.Call)):
+                raise Unsupported("raw token expression %s" % ast.unparse(val)[:60])
+    p0 = Path(domain if "domain_nonempty" not in dir() else domain_nonempty, env)
+    paths = ev.run_block(stmts, [p0] + (extra_paths if "extra_paths" in dir() else []))
     refuse = ev.refuse_language(paths, domain)
     accept_flag = ev.empty
     for p in paths:
